@@ -3,6 +3,9 @@ package main
 import (
 	"fmt"
 	"sort"
+	"strings"
+
+	"golang.org/x/tools/go/ssa"
 )
 
 // explorations are diagnostic listings used while building rule tables (not checks).
@@ -32,4 +35,28 @@ var explorations = map[string]func(p *Prog){
 		}
 		fmt.Printf("total uses=%d unguarded=%d\n", len(us), bad)
 	},
+}
+
+func init() {
+	explorations["sib-ppc"] = func(p *Prog) {
+		for _, recv := range []string{"packetPacker", "uPacketPacker"} {
+			f, err := p.Func1("", recv, "PackCoalescedPacket")
+			if err != nil {
+				fmt.Println(err)
+				return
+			}
+			o := &sibOpts{Rename: uRename}
+			var es []string
+			for e := range summarize(f, o, 0, nil, map[*ssa.Function]bool{}) {
+				es = append(es, e)
+			}
+			sort.Strings(es)
+			fmt.Println("==", recv)
+			for _, e := range es {
+				if strings.Contains(e, "maybeGetCryptoPacket") {
+					fmt.Println("  ", e)
+				}
+			}
+		}
+	}
 }
